@@ -29,6 +29,7 @@ def run(ctx, rep):
     rep.assumptions += ["session discipline: a handle open for append is the only open handle (what the lock of C04 enforces)",
                         "creation modes x/w are used only to create the file; reopening uses r/a"]
     ok, out, where = vlib.build_props(ctx, rep, "C02", extra_targets=[])
+    tstatus, tok, tout, twhere = U.code_tie(ctx, rep)
     work = ctx.sub("ukv")
     path = os.path.join(work, "t.ukv")
     hists = [(h, 1) for h in exhaustive_histories(4 if ctx.thorough else 3)]
@@ -99,6 +100,10 @@ def run(ctx, rep):
                         "obligation": "corr_c02"}, no_input=True)
     if not ok:
         vlib.broken_obligation(rep, "Props/C02.v", f"{where}\n{out[-1500:]}", found)
+    if not tok:
+        # a translated method body no longer equals its model function: the histories above are the search for an input
+        vlib.broken_obligation(rep, "Props/C02code.v", "the translation of molli/storage/ukvfile.py no longer refines Model/UKV.v: "
+                               f"{twhere}\n{tout[-1500:]}", bool(rep.violations))
 
 
 def _ser(o):
